@@ -477,3 +477,59 @@ with desugar_cases (cs:cases) : cases :=
 Definition compile (p:prog) : list tstmt := cstmt [] false (FnCall (fst p) (desugar_block (snd p))).
 
 Definition tgt_sem (t:list tstmt) (x:st) : res := tblock t x.
+
+(* ================================================================== statement-level predicates of Properties.v *)
+(* Placement rules of the mini-language.  L: inside a loop of the same function (break/continue allowed);
+   D: inside a do-expression (`in` allowed); F: `return` allowed (not inside a deferred block); N is inert.
+   A deferred block starts with L = D = F = false: no return/break/continue/in may leave it. *)
+Fixpoint wf_stmt (L D F N:bool) (s:stmt) {struct s} : bool :=
+  match s with
+  | Emit _ => true
+  | Defer _ b => wf_block false false false N b
+  | Close _ => true
+  | Do b => wf_block L D F N b
+  | If _ t e => wf_block L D F N t && wf_block L D F N e
+  | While _ b => wf_block true D F N b
+  | Repeat b _ => wf_block true D F N b
+  | For _ b => wf_block true D F N b
+  | Switch _ cs d => wf_cases L D F N cs && wf_block L D F N d
+  | DoExpr b => wf_block L true F N b
+  | In _ => D
+  | Break | Continue => L
+  | Return _ | ReturnVoid => F
+  | FnCall _ b => wf_block false false true false b
+  end
+with wf_block (L D F N:bool) (b:block) {struct b} : bool :=
+  match b with
+  | BNil => true
+  | BCons s r => wf_stmt L D F N s && wf_block L D F N r
+  end
+with wf_cases (L D F N:bool) (cs:cases) {struct cs} : bool :=
+  match cs with
+  | CNil => true
+  | CCons b ft r => wf_block L D F N b && wf_cases L D F N r
+  end.
+
+Definition wf_prog (p:prog) : bool := wf_block false false true false (snd p).
+
+(* what the analyzer accepts of the mini-language (tied to `nelua --analyze` by the boundary stream of the check,
+   not by a theorem) *)
+Definition accepted (p:prog) : bool := wf_prog p.
+
+(* the registration / run discipline over a chronological trace: G d pushes d, U d must find d on top and pops it;
+   a failure is a deferred block that runs although it is not the most recently registered pending one *)
+Fixpoint stack_run (evs:list ev) (s:list nat) : option (list nat) :=
+  match evs with
+  | [] => Some s
+  | EvG d :: r => stack_run r (d :: s)
+  | EvU d :: r => match s with
+                  | d' :: s' => if Nat.eqb d d' then stack_run r s' else None
+                  | [] => None
+                  end
+  | _ :: r => stack_run r s
+  end.
+
+
+Definition run_discipline (x:st) (r:res) : Prop :=
+  exists new s', tr (snd r) = new ++ tr x /\ stack_run (rev new) [] = Some s' /\ (fst r = Nrm -> s' = []).
+
